@@ -71,7 +71,7 @@ enum RetryStrategyField {
 impl RecognizerReadable for RetryStrategy {
     type Rec = RetryStrategyRecognizer;
     type AttrRec = SimpleAttrBody<RetryStrategyRecognizer>;
-    type BodyRec = SimpleRecBody<RetryStrategyRecognizer>;
+    type BodyRec = RetryStrategyRecognizer;
 
     fn make_recognizer() -> Self::Rec {
         RetryStrategyRecognizer {
@@ -88,10 +88,7 @@ impl RecognizerReadable for RetryStrategy {
     }
 
     fn make_body_recognizer() -> Self::BodyRec {
-        SimpleRecBody::new(RetryStrategyRecognizer {
-            stage: RetryStrategyStage::Init,
-            fields: None,
-        })
+        Self::make_recognizer()
     }
 }
 
@@ -476,7 +473,7 @@ enum DurationField {
 impl RecognizerReadable for Duration {
     type Rec = DurationRecognizer;
     type AttrRec = SimpleAttrBody<DurationRecognizer>;
-    type BodyRec = SimpleRecBody<DurationRecognizer>;
+    type BodyRec = DurationRecognizer;
 
     fn make_recognizer() -> Self::Rec {
         DurationRecognizer {
@@ -495,11 +492,7 @@ impl RecognizerReadable for Duration {
     }
 
     fn make_body_recognizer() -> Self::BodyRec {
-        SimpleRecBody::new(DurationRecognizer {
-            stage: DurationStage::Init,
-            secs: None,
-            nanos: None,
-        })
+        Self::make_recognizer()
     }
 }
 
